@@ -16,6 +16,7 @@ import (
 	"github.com/ucan-wg/go-ucan/token/invocation"
 
 	"verifharness/engine"
+	"verifharness/fixtures"
 )
 
 // C05: generate rule-conforming chains only and require that each is accepted,
@@ -454,6 +455,7 @@ func C05() *engine.Check {
 		Subs: []*engine.Sub{
 			c05Sub(3, 5),
 			c05PolicySub(),
+			c05LenSub(),
 			longChainSub("C05"),
 			c01Sub("principal-universe-completeness", "complete", 3, 4),
 			c01SealedSub("sealed-tokens-through-container-completeness", "complete", 2, 3),
@@ -469,10 +471,102 @@ func C05() *engine.Check {
 			c04RealEnvSub("real-clock-hostile-environment-completeness", "complete"),
 			clockSub("C05"),
 			clockHistSub("C05"),
+			c04RenewSub("complete"),
 		},
 		Assumptions: []string{
 			"the completeness direction of the C01-C04 universes is charged here: whenever the reference says no rule is violated the implementation must allow",
 			"time windows are either absent or end 10 years from now on either side, so the verdict cannot depend on when the check runs",
+		},
+	}
+}
+
+// ---- one delegation object, arguments of different lengths ----
+
+type c05LenCase struct {
+	Stmt    int   `json:"stmt"`
+	Seq     []int `json:"seq"`     // argument sets, one check each, on the SAME delegation objects
+	Decoded bool  `json:"decoded"` // the delegation went through seal -> unseal
+}
+
+func (c *c05LenCase) Weight() int { return len(c.Seq) }
+
+func c05LenSub() *engine.Sub {
+	stmts := []policy.Constructor{
+		policy.Equal(".tags[-1:]", nList(nStr("prod"))),
+		policy.Any(".tags[-2:]", policy.Equal(".", literal.String("prod"))),
+		policy.Like(".name[-4:]", ".exe"),
+		policy.Not(policy.Equal(".tags[-1:]", nList())),
+		policy.Equal(".tags[-1]", literal.String("prod")),
+		policy.All(".tags[1:]", policy.Like(".", "*")),
+		policy.Equal(".name[1:][-3:]", literal.String("exe")),
+	}
+	argSets := []struct {
+		tags []string
+		name string
+	}{
+		{[]string{"v1", "prod"}, "a.exe"}, {[]string{"v1", "eu", "prod"}, "café.exe"}, {[]string{"prod"}, ".exe"},
+		{[]string{"a", "b", "c", "d", "prod"}, "日本語-long-name.exe"},
+	}
+	return &engine.Sub{
+		Name: "same-delegation-across-argument-lengths",
+		Rule: "one delegation object (in memory, or sealed and decoded once) whose policy has a selector with a negative or open slice bound / a negative index - 7 statements that hold for each of 4 argument sets whose lists and strings have different lengths - serves every sequence of three invocations (64 sequences, ExecutionAllowed and ExecutionAllowedWithArgsHook alternating): every check is allowed, whatever lengths the same parsed selector met before; non-trivial = sequences in which the lengths differ",
+		Bound: func(string) string { return "7 statements x 64 sequences of 4 argument sets x {in memory, decoded}" },
+		Setup: func(string) error { chainInit(); return nil },
+		Gen: func(tier string, emit func(any) bool) {
+			for s := range stmts {
+				for a := 0; a < 4; a++ {
+					for b := 0; b < 4; b++ {
+						for c := 0; c < 4; c++ {
+							for _, dec := range []bool{false, true} {
+								if !emit(&c05LenCase{Stmt: s, Seq: []int{a, b, c}, Decoded: dec}) {
+									return
+								}
+							}
+						}
+					}
+				}
+			}
+		},
+		NewCase: func() any { return &c05LenCase{} },
+		Run: func(ctx *engine.Ctx, c any) {
+			cs := c.(*c05LenCase)
+			pol := policy.MustConstruct(stmts[cs.Stmt])
+			d := mustDlg(0, 1, 0, "/a", pol)
+			if cs.Decoded {
+				b, _, err := d.ToSealed(fixtures.ByAlg("ed25519")[0].Priv)
+				if err != nil {
+					panic(err)
+				}
+				if d, _, err = delegation.FromSealed(b); err != nil {
+					panic(err)
+				}
+			}
+			ld := &sliceLoader{cids: []cid.Cid{cidPool[0]}, toks: []*delegation.Token{d}}
+			ctx.States(1)
+			if cs.Seq[0] != cs.Seq[1] || cs.Seq[1] != cs.Seq[2] {
+				ctx.Nontrivial(1)
+			}
+			for k, ai := range cs.Seq {
+				as := argSets[ai]
+				inv, err := invocation.New(prin(1), prin(0), "/a", []cid.Cid{cidPool[0]}, invocation.WithNonce(fixedNonce), invocation.WithoutInvokedAt(),
+					invocation.WithArgument("tags", as.tags), invocation.WithArgument("name", as.name))
+				if err != nil {
+					panic(err)
+				}
+				var e error
+				if k%2 == 0 {
+					e = inv.ExecutionAllowed(ld)
+				} else {
+					e = inv.ExecutionAllowedWithArgsHook(ld, identityHook)
+				}
+				ctx.Eval(1)
+				ctx.Trans(1)
+				ctx.Outcome(errLabel(e))
+				if e != nil {
+					ctx.Failf(cs, "conforming-denied:"+errLabel(e)+"/after-arguments-of-another-length", "check #%d of the sequence %v on one delegation (statement #%d, decoded=%v): arguments %v / %q satisfy the policy, yet the invocation is denied: %v", k, cs.Seq, cs.Stmt, cs.Decoded, as.tags, as.name, e)
+					return
+				}
+			}
 		},
 	}
 }
